@@ -257,6 +257,12 @@ class SimPool(cf.Executor):
     def shutdown(self, wait: bool = True, *, cancel_futures: bool = False) -> None:
         if self._real is not None:
             return self._real.shutdown(wait, cancel_futures=cancel_futures)
+        if self.rt.sim.me() is None:
+            # called from a thread the simulator does not schedule (asyncio's shutdown_default_executor helper thread when the
+            # code under test installed this pool as the loop's default executor): no event, no yield - it must not race
+            self.closed = True
+            self._shutdown = True
+            return
         self.rt.sim.ev("exec_end", self.token)
         self.closed = True
         self._shutdown = True
